@@ -63,9 +63,12 @@ func MatchMain(eng *Engine) (bind inputrc.Bind, command func(), prefix bool) {
 	// Find the target action, macro or command.
 	bind, prefix, read, _ := eng.dispatchKeys(binds)
 
-	// Binds are matched byte by byte: a multibyte character matches none,
-	// and is inserted as a whole in the keymaps that insert what is typed.
-	if bind.Action == "" && !prefix && len(read) == 1 && read[0] >= utf8.RuneSelf && eng.insertsText() {
+	// Binds are matched byte by byte: a multibyte character matches none, and is
+	// inserted as a whole in the keymaps that insert what is typed. The bytes tried
+	// against the binds might be several (another bind starts with the same ones),
+	// but must all belong to this one character.
+	if bind.Action == "" && !prefix && len(read) > 0 && read[0] >= utf8.RuneSelf &&
+		!utf8.FullRune(read[:len(read)-1]) && eng.insertsText() {
 		bind, prefix, read = eng.matchCharacter(read)
 	}
 
@@ -207,8 +210,8 @@ func (m *Engine) insertsText() bool {
 	return (m.IsEmacs() || m.main == ViInsert) && !m.config.GetBool("convert-meta")
 }
 
-// matchCharacter is called with the first byte of a multibyte character: it reads
-// its remaining bytes, and returns either the self-insert bind for the complete
+// matchCharacter is called with the first bytes of a multibyte character (those that
+// were tried against the binds): it reads its remaining bytes, and returns either the self-insert bind for the complete
 // character, or a prefix match if some of its bytes have not yet been read.
 func (m *Engine) matchCharacter(first []byte) (bind inputrc.Bind, prefix bool, read []byte) {
 	read = first
